@@ -10,7 +10,7 @@ CLASS_LAYER = [PA + 'Pauli.__matmul__#Pauli', PA + 'Pauli.__neg__', PA + 'Pauli.
                PA + 'PauliList.rotate_by#nomask', PA + 'PauliList.transform_by#nomask', ST + 'CliffordMap.copy', ST + 'CliffordMap.compose',
                ST + 'CliffordMap.to_state#r', ST + 'CliffordMap.to_state#none', ST + 'StabilizerState.copy', ST + 'StabilizerState.to_map',
                ST + 'StabilizerState.expect#list', ST + 'identity_map', ST + 'StabilizerState.measure#list', ST + 'StabilizerState.postselect',
-               ST + 'StabilizerState.expect#state', 'pyclifford/circuit.py::MeasureLayer.forward', PA + 'PauliList.__neg__', PA + 'PauliList.rotate_by#state', PA + 'PauliList.transform_by#state', PA + 'PauliPolynomial.__matmul__#poly', PA + 'Pauli.__matmul__#Monomial',
+               ST + 'StabilizerState.expect#state', ST + 'CliffordMap.inverse', 'pyclifford/circuit.py::MeasureLayer.forward', PA + 'PauliList.__neg__', PA + 'PauliList.rotate_by#state', PA + 'PauliList.transform_by#state', PA + 'PauliPolynomial.__matmul__#poly', PA + 'Pauli.__matmul__#Monomial',
                'pyclifford/circuit.py::CliffordGate.forward#generator_global', 'pyclifford/circuit.py::CliffordGate.backward#generator_global',
                'pyclifford/circuit.py::CliffordGate.forward#map_global'] + GATES[3:] + \
               [PA + '%s.__rmul__#%s' % (c, t) for c in ('Pauli', 'PauliList') for t in ('1', 'i', 'm1', 'mi')]
@@ -20,7 +20,7 @@ MEASURE_LEMMAS = ['ordp_parity', 'xzpartial_full', 'selacq_map', 'selacq_image',
                   'ipowsum_ext', 'symplectic_complete']
 KERNELS = [U + f for f in ('batch_dot', 'random_pair', 'pauli_diagonalize1', 'stabilizer_measure', 'stabilizer_project', 'stabilizer_postselection', 'stabilizer_projection_trace', 'acq', 'ipow', 'p0', 'ps0', 'acq_mat', 'pauli_tokenize', 'pauli_combine', 'pauli_transform',
                            'clifford_rotate', 'clifford_rotate_signless', 'map_to_state', 'state_to_map', 'front',
-                           'pauli_is_onsite', 'stabilizer_expect')]
+                           'pauli_is_onsite', 'stabilizer_expect', 'z2inv', 'z2rank')]
 
 
 def _b():
@@ -60,10 +60,13 @@ def C03(run):
 
 
 def C04(run):
-    run.deductive(keys=[U + 'pauli_transform', U + 'pauli_combine', ST + 'CliffordMap.compose', ST + 'CliffordMap.copy', ST + 'identity_map'], lemmas=[])
+    run.deductive(keys=[U + 'pauli_transform', U + 'pauli_combine', U + 'ps0', U + 'z2inv', ST + 'CliffordMap.compose', ST + 'CliffordMap.inverse', ST + 'CliffordMap.copy', ST + 'identity_map'],
+                  lemmas=['dot_shift', 'dot_add', 'dot_unit', 'ordg_is_dot', 'mul_assoc'])
     run.bounded_check('c04_group', _b().c04_group, Nmax=q(run, 2, 3), count=q(run, 20, 250))
-    return 'other', ('group laws bounded (N=1 exhaustive over all 24 maps, sampled beyond); compose is pauli_transform whose '
-                     'functional contract is deductive; z2inv exhaustive up to 3x3')
+    return 'other', ('deductive (all N): z2inv returns a GF(2) inverse (Gauss-Jordan augmented-matrix invariant  left == right . mat), '
+                     'CliffordMap.inverse() composed with the map is the identity map (strings and phases, in the vocabulary of '
+                     "compose's postcondition), compose = pauli_transform with its functional contract; bounded: two-sidedness, "
+                     'associativity on maps, closure, rejection of singular input (N=1 exhaustive over all 24 maps, sampled beyond)')
 
 
 def C05(run):
@@ -95,8 +98,13 @@ def C07(run):
 
 
 def C08(run):
+    run.deductive(keys=[U + 'z2rank', U + 'acq_mat', U + 'acq'], lemmas=['lead_range', 'lead_char', 'lead_zero', 'rank_swap', 'rank_rowadd', 'rank_echelon'])
     run.bounded_check('c08_entropy', _b().c08_entropy, Nmax=q(run, 3, 4), count=q(run, 25, 200))
-    return 'other', 'bounded: entropy against the dense von Neumann entropy of the reduced density matrix for all regions, ranks, both argument forms'
+    return 'other', ('deductive (all shapes): z2rank returns the GF(2) rank of its argument -- every step of the elimination is a row swap or '
+                     'a row addition (rank-preserving: three classical facts about the abstract Z2Rank assumed, evaluated natively every run) '
+                     'and the loop ends in an echelon form with exactly `result` non-zero rows; acq_mat is the symplectic Gram matrix. '
+                     'bounded: stabilizer_entropy / StabilizerState.entropy (numpy mask indexing, outside the fragment) against the dense von '
+                     'Neumann entropy of the reduced density matrix for all regions, ranks, both argument forms')
 
 
 def C09(run):
